@@ -58,6 +58,36 @@ def loggerAfter : Nat → Nat → List (Op × Res) → Nat
   | d, _, [] => d
   | d, n, (op, r) :: rest => loggerAfter (logger d n op r) (n + 1) rest
 
+/-- the storage a configuration asks for (0 = caddy's DefaultStorage) -/
+def storKey : Option Cfg → Nat
+  | none => 0
+  | some c => c.stor.key
+
+/-- did the request get as far as run()? Every dry run does; a load / PATCH / DELETE does when
+    there is something to apply it to, the document is well-formed at the top level and it is not
+    accepted (accepted ones are `ok`, which installs, or "unchanged", which runs nothing) -/
+def reachedRun (running : Option Cfg) (op : Op) (r : Res) : Bool :=
+  match op with
+  | .validate _ _ => true
+  | _ =>
+    match attempted running op with
+    | some c => installs op && !r.accepted && c.top != 1 && c.top != 2
+    | none => false
+
+/-- the process-wide default storage (certmagic.Default.Storage), as a client may rely on it:
+    an installed configuration's own storage; after a request that reached run() without being
+    accepted (and after every dry run) the storage of the configuration that is running (caddy's
+    DefaultStorage if none is); untouched by everything else (unchanged, malformed, Stop) -/
+def storage (d : Nat) (running : Option Cfg) (op : Op) (r : Res) : Nat :=
+  if installs op = true ∧ r = .ok then storKey (attempted running op)
+  else if reachedRun running op r = true then storKey running
+  else d
+
+/-- … over a history of (operation, answer) pairs -/
+def storageAfter : Nat → Option Cfg → List (Op × Res) → Nat
+  | d, _, [] => d
+  | d, running, (op, r) :: rest => storageAfter (storage d running op r) (step running op r.accepted) rest
+
 end Spec
 
 /-- model and spec side by side over a history; the spec is told only whether each attempt was
